@@ -1048,6 +1048,20 @@ def _math1(fname):
                 return T.Const(1)
             if q == 1 and fname == "log":
                 return T.Const(0)
+        if fname == "sqrt" and x.op != "const":
+            # sqrt of a perfect square c^2 m^2 -> |c m| (forks on the sign unless it is known)
+            try:
+                n, d = T.canon_rf(T.nf(x))
+            except T.PolyTooBig:
+                n = d = None
+            if n is not None and len(n) == 1 and len(d) == 1:
+                (mn, cn), = n.items()
+                (md, cd), = d.items()
+                r = T._is_square_q(cn / cd)
+                if r is not None and all(e % 2 == 0 for _, e in mn) and all(e % 2 == 0 for _, e in md) and (mn or md):
+                    if T._sqrt_simplify((n, d)) is None:
+                        root = T.rf_to_term(({tuple((v, e // 2) for v, e in mn): r}, {tuple((v, e // 2) for v, e in md): Fraction(1)}))
+                        return m.fabs(root)
         return T.Fn(fname, x)
 
     return h
@@ -1061,6 +1075,16 @@ def _math1f(fname):
         return f32round(r) if isinstance(r, float) else r
 
     return h
+
+
+def _tan(m, args, _n=None):
+    x = args[0]
+    if isinstance(x, float):
+        return math.tan(x)
+    x = m.lift(x)
+    if x.op == "const" and x.args[0] == 0:
+        return T.Const(0)
+    return T.Div(T.Fn("sin", x), T.Fn("cos", x))
 
 
 def _atan2(m, args, _n=None):
@@ -1340,10 +1364,10 @@ EXTERNALS = {
     "realloc": _realloc, "posix_memalign": _posix_memalign,
     "aligned_alloc": lambda m, a, n=None: m.malloc(a[1]),
     "calloc": lambda m, a, n=None: _calloc(m, a),
-    "sqrt": _math1("sqrt"), "sin": _math1("sin"), "cos": _math1("cos"), "tan": _math1("tan"),
+    "sqrt": _math1("sqrt"), "sin": _math1("sin"), "cos": _math1("cos"), "tan": _tan,
     "exp": _math1("exp"), "log": _math1("log"), "atan2": _atan2, "pow": _pow, "fabs": _fabs,
     "asin": _math1("asin"), "acos": _math1("acos"), "atan": _math1("atan"),
-    "sqrtf": _math1f("sqrt"), "sinf": _math1f("sin"), "cosf": _math1f("cos"), "tanf": _math1f("tan"),
+    "sqrtf": _math1f("sqrt"), "sinf": _math1f("sin"), "cosf": _math1f("cos"), "tanf": _tan,
     "expf": _math1f("exp"), "logf": _math1f("log"), "atan2f": _atan2, "powf": _pow, "fabsf": _fabs,
     "floor": _floor, "copysign": _copysign,
     "__cxa_guard_acquire": _guard_acquire, "__cxa_guard_release": _guard_release,
